@@ -124,7 +124,7 @@ let run_sched (id : string) (t : string list) =
   match split_bar t with
   | [ps; [n; keep; br; bd]; ops] ->
     let xp = { Exec.xN = z n; Exec.keep_all_deps = (keep = "1"); Exec.budget_ram = optz br; Exec.budget_disk = optz bd } in
-    let ops = L.concat_map (fun o -> if S.length o > 1 && S.get o 0 = 'b' then L.init (int_of_string (S.sub o 1 (S.length o - 1))) (fun _ -> "n") else [o]) ops in
+    let ops = L.concat_map (fun o -> if o = "c" then [] (* the implementation continues with copy.copy of the schedule: the same object to the model *) else if S.length o > 1 && S.get o 0 = 'b' then L.init (int_of_string (S.sub o 1 (S.length o - 1))) (fun _ -> "n") else [o]) ops in
     begin match Sched.run_case (params_of ps) xp (L.map op_of ops) with
     | Err e -> print_string ("CTOR EXC:" ^ exn2s e ^ "\n")
     | Ok ((o0, m), lines) ->
